@@ -132,6 +132,8 @@ def generate(rng, tier):
         case["layer_values"] = {"vmin": rng.choice([0, 0.0])}
     if rng.random() < 0.2:
         case["call_values"] = {"vmin": rng.choice([0, 0.0])}
+    if rng.random() < 0.15:
+        case["call_norm_object"] = True
     if rng.random() < 0.02:
         case["big"] = {"n": rng.choice([120000, 300000]), "res": rng.choice([4, 16]), "op": rng.choice(["sum", "mean"]), "seed": rng.getrandbits(30)}
     return case
@@ -164,6 +166,10 @@ def snap(obj, depth=0):
         return ("dict", id(obj), [(k, snap(v, depth + 1)) for k, v in obj.items()])
     if isinstance(obj, (list, tuple)):
         return (type(obj).__name__, id(obj), [snap(v, depth + 1) for v in obj])
+    import matplotlib.colors as _mc
+
+    if isinstance(obj, _mc.Normalize):
+        return ("Norm", id(obj), type(obj).__name__, repr(obj.vmin), repr(obj.vmax))
     if isinstance(obj, Quantity):
         return ("Quantity", float(obj.magnitude) if np.ndim(obj.magnitude) == 0 else np.array(obj.magnitude, copy=True), str(obj.units))
     if isinstance(obj, np.ndarray):
@@ -220,6 +226,9 @@ class Shared:
             self.layers.append(self.dg.layer(keys[k], **kw))
         self.scatter_layer = self.dg.layer("position", mode="scatter", s=2.0)
         self.res_dict = dict(case["res_dict"])
+        import matplotlib.colors as mcolors
+
+        self.norm_obj = mcolors.LogNorm()
         self.origin = osyris.Vector(0.4317, 0.5231, 0.6113, unit="cm")  # no sample point of any generated window lies on a cell face
         self.dir_vec = osyris.Vector(1.0, 2.0, 0.5)
         self.dir_basis = osyris.core.vector.VectorBasis(n=osyris.Vector(0.0, 1.0, 1.0), u=osyris.Vector(1.0, 0.0, 0.0))
@@ -250,7 +259,7 @@ class Shared:
 
     def everything(self):
         return {"dg": self.dg, "layers": self.layers, "scatter_layer": self.scatter_layer, "res_dict": self.res_dict, "origin": self.origin, "dxq": self.dxq, "dzq": self.dzq,
-                "dir_vec": self.dir_vec, "dir_basis": self.dir_basis_parts,
+                "dir_vec": self.dir_vec, "norm_obj": self.norm_obj, "dir_basis": self.dir_basis_parts,
                 "bins_list": self.bins_list, "weights": self.weights, "h1_layers": self.h1_layers, "color": self.color, "size": self.size,
                 "plot_dict": self.plot_dict, "signed": self.signed, "signed_layer": self.signed_layer}
 
@@ -261,6 +270,8 @@ def lvalue(case, o):
 
 
 def cvalue(case, o):
+    if o == "norm" and case.get("call_norm_object"):
+        return "OBJ:log"  # the caller passes a matplotlib norm object (one object, kept and re-used across calls)
     return case.get("call_values", {}).get(o, CALL_VALUES[o])
 
 
@@ -279,6 +290,8 @@ def effective(case, call, k):
 
 def call_kwargs(call, S, which="real", eff=None):
     """kwargs of the real call, or of the reference call for one layer (eff given)."""
+    import matplotlib.colors as mcolors
+
     kw = {}
     for o in OPTS:
         if eff is None:
@@ -286,6 +299,11 @@ def call_kwargs(call, S, which="real", eff=None):
                 kw[o] = cvalue(S.case, o)
         elif eff[o] is not None:
             kw[o] = eff[o]
+    if kw.get("norm") == "OBJ:log":
+        if call.get("plot") or call.get("fail"):
+            kw["norm"] = "log"  # (matplotlib itself fills the limits of a norm object when it draws)
+        else:
+            kw["norm"] = S.norm_obj if eff is None else mcolors.LogNorm()
     return kw
 
 
@@ -598,12 +616,12 @@ def execute(case, stats):
                     V("precedence", "mode", {"layer": k, "got": lay["mode"], "want": eff["mode"]}, step, call)
                     break
                 nrm = lay["params"].get("norm")
-                want_cls = mcolors.LogNorm if eff["norm"] == "log" else mcolors.Normalize
+                want_cls = mcolors.LogNorm if eff["norm"] in ("log", "OBJ:log") else mcolors.Normalize
                 if type(nrm) is not want_cls:
                     V("precedence", "norm", {"layer": k, "got": type(nrm).__name__, "want": want_cls.__name__}, step, call)
                     break
                 rendered = bool(call.get("plot"))  # matplotlib fills unset limits from the data when it draws
-                if not rendered and (nrm.vmin != eff["vmin"] or nrm.vmax != eff["vmax"]):
+                if not rendered and eff["norm"] != "OBJ:log" and (nrm.vmin != eff["vmin"] or nrm.vmax != eff["vmax"]):
                     V("precedence", "vmin-vmax", {"layer": k, "got": [nrm.vmin, nrm.vmax], "want": [eff["vmin"], eff["vmax"]]}, step, call)
                     break
                 if lay["params"].get("cmap") != eff["cmap"]:
